@@ -98,6 +98,56 @@ const GENERATED_UNICODE: &[(&str, &str)] = &[
     ("schema_json", "{\"\": {\"entityTypes\": {\"U\\u00e9\": {}}, \"actions\": {\"v\\u00efew\": {\"appliesTo\": {\"principalTypes\": [\"U\\u00e9\"], \"resourceTypes\": [\"U\\u00e9\"]}}}}}"),
 ];
 
+/// unusual-but-plausible documents, one feature each (kind, text)
+const GENERATED_ODD: &[(&str, &str)] = &[
+    // Cedar schema text
+    ("schema_cedar", "namespace N {}"),
+    ("schema_cedar", "namespace N:: { entity E; }"),
+    ("schema_cedar", "entity E = { a: Long }; entity E = { a: String }; action a appliesTo { principal: [E], resource: [E] };"),
+    ("schema_cedar", "entity E enum []; action a appliesTo { principal: [E], resource: [E] };"),
+    ("schema_cedar", "entity E enum [\"x\", \"x\", \"\"]; action a appliesTo { principal: [E], resource: [E] };"),
+    ("schema_cedar", "entity E; action a appliesTo { principal: [], resource: [E] };"),
+    ("schema_cedar", "entity E; action a appliesTo { principal: [E] };"),
+    ("schema_cedar", "type A = B; type B = A; entity E = { x: A }; action a appliesTo { principal: [E], resource: [E], context: A };"),
+    ("schema_cedar", "type Long = Long; type String = Set<String>; entity E = { a: Long }; action a appliesTo { principal: [E], resource: [E] };"),
+    ("schema_cedar", "@a @a(\"\") @b entity E; @doc action \"\" appliesTo { principal: [E], resource: [E] }; action x in [x];"),
+    ("schema_cedar", "entity A in [B]; entity B in [A]; action a in [b]; action b in [a];"),
+    ("schema_cedar", "namespace A::B::C { entity D in [A::B::C::D, D]; action \"a\" in [A::B::C::Action::\"a\"] appliesTo { principal: D, resource: D, context: {} }; }"),
+    ("schema_cedar", "entity E tags Set<Set<E>>; entity F = { r: { s: { t: E } } } tags F; action a appliesTo { principal: [E, F], resource: [E, F], context: { e: E, \"if\": Bool } };"),
+    // schema JSON
+    ("schema_json", r#"{"": {"entityTypes": {"E": {"shape": {"type": "Set"}}}, "actions": {}}}"#),
+    ("schema_json", r#"{"": {"entityTypes": {"E": {"shape": {"type": "Record", "attributes": []}}}, "actions": {}}}"#),
+    ("schema_json", r#"{"": {"entityTypes": {"E": {"memberOfTypes": ["", "::", "E::"]}}, "actions": {"a": {"memberOf": [{"id": "a"}], "appliesTo": {"principalTypes": [], "resourceTypes": ["E"]}}}}}"#),
+    ("schema_json", r#"{"": {"entityTypes": {"E": {"shape": {"type": "Record", "attributes": {"x": {"type": "Extension", "name": "nosuch"}, "y": {"type": "Entity", "name": ""}, "z": {"type": "Set", "element": {"type": "Set", "element": {"type": "Long"}}}}}}}, "actions": {"a": {"appliesTo": {"principalTypes": ["E"], "resourceTypes": ["E"], "context": {"type": "Long"}}}}}}"#),
+    ("schema_json", r#"{"A::": {"entityTypes": {}, "actions": {}}, "": {"commonTypes": {"Long": {"type": "String"}, "T": {"type": "T"}}, "entityTypes": {"E": {"enum": []}}, "actions": {}}}"#),
+    // entities / context JSON
+    ("entities_json", r#"[{"uid": {"type": "U", "id": "a"}, "attrs": {"x": {"__extn": {"fn": "isInRange", "arg": "1.1.1.1"}}, "y": {"__extn": {"fn": "ip", "args": []}}, "z": {"__extn": {"fn": "decimal", "args": ["1.0", "2.0"]}}}, "parents": []}]"#),
+    ("entities_json", r#"[{"uid": {"type": "", "id": "a"}, "attrs": {}, "parents": [1, "x", {"type": "A::", "id": ""}]}, {"uid": {"type": "A::B::", "id": "b"}, "attrs": {}, "parents": [], "tags": []}]"#),
+    ("entities_json", r#"[{"uid": {"type": "U", "id": "a"}, "attrs": {"big": 1e400, "over": 9223372036854775808, "negz": -0.0, "frac": 1.5, "dup": 1, "dup": 2, "sur": "\ud800", "k\ud800": 1}, "parents": []}]"#),
+    ("context_json", r#"{"a": 1e400, "b": 9223372036854775808, "c": -0.0, "d": {"__extn": {"fn": "duration", "arg": "9223372036854775807ms1ms"}}, "e": {"__extn": {"fn": "datetime", "arg": "9999-12-31T23:59:59.999+2359"}}, "f": {"__extn": {"fn": "ip", "arg": "1.1.1.1/33"}}, "g": {"__extn": {"fn": "decimal", "arg": "-922337203685477.5808"}}}"#),
+    ("context_json", "{\"a\": 1, \"a\": 2, \"\\ud800\": 3, \"\": {\"\": {\"\": null}}}"),
+    // policy text
+    ("policies", "@a @b(\"x\")"),
+    ("policies", "@a(\"1\") @a(\"2\") @id(\"\") permit(principal, action, resource);"),
+    ("policies", "permit(principal, action, resource) when { principal == ?principal && resource in ?resource };"),
+    ("policies", "permit(principal, action, resource) when { \"\\u{110000}\" == \"\\u{}\" || \"\\u{D800}\" == \"\\x80\" };"),
+    ("policies", "permit(principal == User::\"a\\0b\", action, resource) when { User::\"\\0\" == principal };"),
+    ("policies", "permit(principal, action, resource) when { decimal(\"-922337203685477.5808\").lessThan(decimal(\"922337203685477.5807\")) && duration(\"9223372036854775807ms1ms\").toDays() > 0 || datetime(\"9999-12-31T23:59:59.999+2359\").offset(duration(\"-9223372036854775808ms\")) < datetime(\"0000-01-01\") || ip(\"1.1.1.1/33\").isLoopback() || ip(\"::/129\").isMulticast() };"),
+    ("policies", "permit(principal, action, resource) when { datetime(\"2024-02-30\").toDate() == datetime(\"2024-01-01T25:00:00Z\") || duration(\"1d1d\").toSeconds() == 0 || duration(\"-\").toHours() == 0 || decimal(\"1.\").lessThan(decimal(\".1\")) || ip(\"256.0.0.1\").isIpv4() || ip(\"::ffff:1.2.3.4\").isIpv6() };"),
+    ("policies", "permit(principal, action, resource) when { -9223372036854775808 - 1 < 0 || 9223372036854775807 * 9223372036854775807 > 0 || -(-9223372036854775808) > 0 || 0 * -9223372036854775808 == 0 };"),
+    ("policies", ";"),
+    ("policies", "permit(principal, action, resource);;permit(principal,action,resource)"),
+    ("policies", "// only a comment, no trailing newline"),
+    ("policies", "@a(\"x\")\n// comment between annotation and effect\npermit // c1\n( // c2\nprincipal, // c3\naction, resource) // c4\nwhen // c5\n{ true // c6\n} // c7\n; // c8"),
+    ("policies", "permit(principal, action, resource)\r\nwhen {\r\n\ttrue // crlf\r\n};\r\n"),
+    ("policies", "permit(principal, action, resource) when { if true then 1 };"),
+    // JSON policies (EST)
+    ("policy_json", r#"{"effect": "permit", "principal": {"op": "All"}, "action": {"op": "All"}, "resource": {"op": "All"}, "conditions": [{"kind": "when", "body": {"if-then-else": {"if": {"Value": true}, "then": {"Value": 1}}}}]}"#),
+    ("policy_json", r#"{"effect": "permit", "principal": {"op": "All"}, "action": {"op": "All"}, "resource": {"op": "All"}, "conditions": [{"kind": "when", "body": {"like": {"left": {"Value": "x"}, "pattern": ["Wildcard", {"Literal": ""}, {"Other": 1}, "wildcard"]}}}]}"#),
+    ("policy_json", r#"{"effect": "permit", "principal": {"op": "is", "entity_type": "U", "in": {"slot": "?principal"}}, "action": {"op": "in", "entities": []}, "resource": {"op": "==", "slot": "?principal"}, "conditions": {"kind": "when"}}"#),
+    ("policy_json", r#"{"effect": "permit", "principal": {"op": "All"}, "action": {"op": "All"}, "resource": {"op": "All"}, "conditions": [{"kind": "when", "body": {"Record": {"if": {"Value": 1}, "__entity": {"Value": 2}, "": {"Unknown": {"name": ""}}}}}, {"kind": "when", "body": {"Slot": "?resource"}}, {"kind": "when", "body": {"decimal": []}}, {"kind": "when", "body": {"lessThan": [{"Value": 1}]}}, {"kind": "when", "body": {"nosuchfn": [{"Value": 1}]}}]}"#),
+];
+
 const GENERATED_EXPRS: &[&str] = &["1 + 2", "principal.a.b has c", r#"User::"a""#, r#"[1, "a", {"k": User::"b"}]"#, r#"ip("1.2.3.4")"#, r#"if context.x then principal else resource"#, r#"-9223372036854775808"#, r#"--1"#, r#""\u{10FFFF}" like "*""#, r#"a::b::"c""#];
 
 const GENERATED_SCHEMAS: &[&str] = &[
@@ -204,6 +254,11 @@ pub fn pools() -> &'static Pools {
         for (i, (k, p)) in GENERATED_UNICODE.iter().enumerate() {
             seeds.push(SeedDoc { name: format!("gen_unicode_{i}"), kind: k, bytes: p.as_bytes().to_vec() });
         }
+        for (i, (k, p)) in GENERATED_ODD.iter().enumerate() {
+            seeds.push(SeedDoc { name: format!("gen_odd_{i}"), kind: k, bytes: p.as_bytes().to_vec() });
+        }
+        seeds.push(SeedDoc { name: "gen_like_stars".into(), kind: "policies", bytes: format!("permit(principal, action, resource) when {{ \"{}\" like \"{}b\" }};", "a".repeat(60), "*a".repeat(40)).into_bytes() });
+        seeds.push(SeedDoc { name: "gen_long_ident".into(), kind: "policies", bytes: format!("permit(principal, action, resource) when {{ principal.{} == 1 }};", "x".repeat(10_000)).into_bytes() });
         for d in [8, 24, MAX_DEPTH] {
             for (i, (k, p)) in nested(d).into_iter().enumerate() {
                 seeds.push(SeedDoc { name: format!("gen_nested_{d}_{i}"), kind: k, bytes: p.into_bytes() });
@@ -1268,7 +1323,7 @@ impl World for StorageFaults {
     fn runs(&self, tier: Tier) -> u64 {
         let ex = pools().exhaustive.len() as u64;
         match tier {
-            Tier::Quick => ex + 100_000,
+            Tier::Quick => ex + 60_000,
             Tier::Thorough => ex + 6_000_000,
         }
     }
@@ -1288,7 +1343,7 @@ impl World for StorageFaults {
         let mut knobs = Rng::sub(seed, "knobs");
         let reader = ReaderPlan { chunk: *knobs.pick(&[1u16, 2, 7, 64, 4096]), interrupt_every: *knobs.pick(&[0u8, 0, 2, 3, 7]), error_at: if knobs.pct(35) { Some(knobs.below(600) as u32) } else { None } };
         let stack_mib = *knobs.pick(&[2u16, 8, 8, 64]);
-        let line_width = *knobs.pick(&[1u16, 20, 80, 200]);
+        let line_width = *knobs.pick(&[0u16, 1, 20, 80, 200]);
         let indent = *knobs.pick(&[0u8, 2, 8]);
         let schema = knobs.below(4) as u8;
         if (index as usize) < p.exhaustive.len() {
